@@ -148,11 +148,22 @@ func (g *tgen) action() string {
 
 // ---- lexical helpers
 
-func (g *tgen) ws() string {
+func (g *tgen) ws() string { return g.wsx(true) }
+
+// wsTag is the white space directly after a tag name: Unicode-only spaces there change which
+// element a browser sees (known finding K28), so they are generated rarely.
+func (g *tgen) wsTag() string { return g.wsx(g.r.Intn(20) == 0) }
+
+func (g *tgen) wsx(unicodeOK bool) string {
 	if !g.chance(g.o.Lexical) {
 		return " "
 	}
 	g.feat("odd-ws")
+	if unicodeOK && g.chance(g.o.Odd/2) {
+		// code points that Unicode, but not HTML, treats as white space
+		g.feat("unicode-ws")
+		return g.r.Pick([]string{"\u00a0", "\v", "\u0085", "\u3000", "\u2028", " \u00a0", "\u00a0 ", "\u2003", "\x1c"})
+	}
 	return g.r.Pick([]string{" ", "\t", "\n", "\f", "\r", "  ", " \n ", "\r\n"})
 }
 
@@ -374,7 +385,12 @@ func (g *tgen) attr(elem string, dynamic bool) string {
 	if q == "'" {
 		val = strings.ReplaceAll(val, "'", "&#39;")
 	}
-	return name + "=" + q + val + q
+	eq := "="
+	if g.chance(g.o.Lexical / 3) {
+		eq = g.optws() + "=" + g.optws()
+		g.feat("ws-around-eq-dynamic")
+	}
+	return name + eq + q + val + q
 }
 
 // startTag emits "<name attrs>".
@@ -383,10 +399,18 @@ func (g *tgen) startTag(name string, dynAttrs int) string {
 	b.WriteString("<" + g.casing(name))
 	nattr := g.r.Intn(3)
 	if g.o.URLHeavy && name == "link" {
-		b.WriteString(g.ws() + g.linkRel())
+		b.WriteString(" " + g.linkRel())
+	}
+	first := true
+	sep := func() string {
+		if first {
+			first = false
+			return g.wsTag()
+		}
+		return g.ws()
 	}
 	for i := 0; i < nattr; i++ {
-		b.WriteString(g.ws())
+		b.WriteString(sep())
 		if g.chance(g.o.Tear) && g.depth < g.o.MaxDepth {
 			g.feat("torn-attr")
 			b.WriteString("{{if " + g.boolRef() + "}}" + g.attr(name, g.r.Bool()) + "{{else}}" + g.attr(name, false) + "{{end}}")
@@ -395,7 +419,7 @@ func (g *tgen) startTag(name string, dynAttrs int) string {
 		b.WriteString(g.attr(name, false))
 	}
 	for i := 0; i < dynAttrs; i++ {
-		b.WriteString(g.ws())
+		b.WriteString(sep())
 		b.WriteString(g.attr(name, true))
 	}
 	if g.chance(g.o.Lexical / 3) {
@@ -607,6 +631,27 @@ func (g *tgen) control() string {
 		}
 		return "{{range " + l + "}}" + body + "{{end}}"
 	case 4:
+		if g.chance(g.o.Odd) {
+			g.feat("break-continue")
+			l := g.listRef()
+			bc := g.r.Pick([]string{"break", "continue"})
+			cond := "{{if " + g.boolRef() + "}}{{" + bc + "}}{{end}}"
+			g.inRange++
+			a := g.action()
+			g.inRange--
+			switch g.r.Intn(5) {
+			case 0:
+				return "{{range " + l + "}}<b " + cond + "title=\"x\">y</b>{{end}}" + g.action()
+			case 1:
+				return "{{range " + l + "}}<a href=\"" + cond + "/x\">y</a>{{end}}" + g.action()
+			case 2:
+				return "{{range " + l + "}}<textarea>" + cond + "</textarea>{{end}}<i>" + g.action() + "</i>"
+			case 3:
+				return "{{range " + l + "}}" + cond + "<i>" + a + "</i>{{end}}"
+			default:
+				return "{{range " + l + "}}<i title=\"" + a + cond + "\">z</i>{{end}}" + g.action()
+			}
+		}
 		g.feat("with")
 		return "{{with " + g.strRef() + "}}" + g.r.Pick([]string{"<b>{{.}}</b>", "{{.}}", "<i title=\"{{.}}\">x</i>"}) + "{{else}}" + g.text() + "{{end}}"
 	case 5:
